@@ -33,7 +33,8 @@ def check(F, rep):
     if len(bodies) != 1:
         rep.missing("anchor", "unfold coroutine body of resolve_host_all (%d)" % len(bodies))
         return
-    f = bodies[0]
+    from ..inline import inlined
+    f = inlined(F, bodies[0])      # arm bodies may live in small methods on the local State
     du = defuse(f)
     # 1. closed checked first
     ct = bool_field_tests(f, "closed")
